@@ -35,18 +35,18 @@ Open Scope nat_scope.
    (The real loop is bounded the same way: each nesting level either sets one more is_awaiting flag or
    lengthens `seen`, and both are bounded.) *)
 Theorem C08_wait_terminates :
-  forall (bound bound2 : nat) (isp : nat -> bool) (spec : bool) (G : graph) (fuel : nat) (st : state) (i : nat),
+  forall (um : bool) (bound bound2 : nat) (isp : nat -> bool) (spec : bool) (G : graph) (fuel : nat) (st : state) (i : nat),
     length (awaiting st) = length G ->
     fuel >= fuel_bound bound G ->
-    wait bound bound2 isp spec G fuel st i <> RFuel.
+    wait um bound bound2 isp spec G fuel st i <> RFuel.
 Proof. exact wait_terminates_lemma. Qed.
 Print Assumptions C08_wait_terminates.
 
 (* Every is_awaiting flag has its old value again after any outcome (value, DeferredCycle, NotReadyError, the
    fatal Exception) -- so a reported cycle does not poison later evaluations. *)
 Theorem C08_flags_restored :
-  forall (bound bound2 : nat) (isp : nat -> bool) (spec : bool) (G : graph) (fuel : nat) (st : state) (seen : list nat) (p i : nat),
-    match wait_top bound bound2 isp spec G fuel st seen p i with
+  forall (um : bool) (bound bound2 : nat) (isp : nat -> bool) (spec : bool) (G : graph) (fuel : nat) (st : state) (seen : list nat) (p i : nat),
+    match wait_top um bound bound2 isp spec G fuel st seen p i with
     | RFuel => True
     | RVal _ st' | RRaise _ st' => awaiting st' = awaiting st
     end.
@@ -56,9 +56,9 @@ Print Assumptions C08_flags_restored.
 (* A value returned by wait() satisfies the dependency equations of the graph (value_of is their least
    solution), whatever was settled before, and leaves the settled table sound. *)
 Theorem C08_wait_result_sound :
-  forall (G : graph) (bound bound2 : nat) (isp : nat -> bool) (spec : bool) (fuel : nat) (st : state) (seen : list nat) (p i : nat),
+  forall (G : graph) (um : bool) (bound bound2 : nat) (isp : nat -> bool) (spec : bool) (fuel : nat) (st : state) (seen : list nat) (p i : nat),
     settled_sound G st ->
-    match wait_top bound bound2 isp spec G fuel st seen p i with
+    match wait_top um bound bound2 isp spec G fuel st seen p i with
     | RVal z st' => value_of G i z /\ settled_sound G st'
     | RRaise _ st' => settled_sound G st'
     | RFuel => True
@@ -80,8 +80,8 @@ Print Assumptions C08_value_unique.
    Both chains are rooted: they start at the node i that is waited for or at a node reachable from i (a
    dependency evaluated on the way) -- a long chain elsewhere in the graph cannot justify the exception. *)
 Theorem C08_cycle_reported_only_for_cycles :
-  forall (G : graph) (bound bound2 : nat) (isp : nat -> bool) (spec : bool) (fuel : nat) (i : nat) (st' : state),
-    wait bound bound2 isp spec G fuel (init_state G) i = RRaise ECycle st' ->
+  forall (G : graph) (um : bool) (bound bound2 : nat) (isp : nat -> bool) (spec : bool) (fuel : nat) (i : nat) (st' : state),
+    wait um bound bound2 isp spec G fuel (init_state G) i = RRaise ECycle st' ->
     reaches_cycle G i \/ long_forward G i bound \/ long_poly G isp i bound2.
 Proof. exact cycle_sound. Qed.
 Print Assumptions C08_cycle_reported_only_for_cycles.
@@ -92,10 +92,10 @@ Print Assumptions C08_cycle_reported_only_for_cycles.
    plen, a bound below N2 of the polynomial-yields-polynomial steps on every chain: a chain of plain aliases
    (no polynomial) of up to N1 - 1 links satisfies it with plen = 0. *)
 Theorem C08_acyclic_gets_value :
-  forall (G : graph) (bound bound2 : nat) (isp : nat -> bool) (spec : bool) (rank flen plen : nat -> nat),
+  forall (G : graph) (um : bool) (bound bound2 : nat) (isp : nat -> bool) (spec : bool) (rank flen plen : nat -> nat),
     closed G -> ranked G bound bound2 isp rank flen plen ->
     forall fuel i, i < length G -> fuel >= fuel_bound bound G ->
-    exists z st', wait bound bound2 isp spec G fuel (init_state G) i = RVal z st' /\ value_of G i z /\
+    exists z st', wait um bound bound2 isp spec G fuel (init_state G) i = RVal z st' /\ value_of G i z /\
                   awaiting st' = awaiting (init_state G).
 Proof. exact acyclic_value. Qed.
 Print Assumptions C08_acyclic_gets_value.
@@ -113,7 +113,7 @@ Print Assumptions C08_try_compute_flags.
 (* while speculating (try_compute.depth > 0) an unsettled Promise gives NotReadyError, never the fatal
    Exception: in a graph without dangling references wait() cannot raise it at all *)
 Theorem C08_speculation_never_fatal :
-  forall (bound bound2 : nat) (isp : nat -> bool) (G : graph) (fuel : nat) (st : state) (seen : list nat) (p i : nat) (st' : state),
+  forall (um : bool) (bound bound2 : nat) (isp : nat -> bool) (G : graph) (fuel : nat) (st : state) (seen : list nat) (p i : nat) (st' : state),
     (forall k nd, nth_error G k = Some nd ->
        match nd with
        | NConst (NFwd j) => j < length G
@@ -121,23 +121,67 @@ Theorem C08_speculation_never_fatal :
        | _ => True
        end) ->
     settled_sound G st -> i < length G ->
-    wait_top bound bound2 isp true G fuel st seen p i <> RRaise ECrash st'.
+    wait_top um bound bound2 isp true G fuel st seen p i <> RRaise ECrash st'.
 Proof. exact spec_no_crash_closed. Qed.
 Print Assumptions C08_speculation_never_fatal.
+
+(* The not_ready_yet memo of TryCompute (fix 9baed24; `um` above is "the memo is in use", every theorem of this part holds
+   for both values).  Three statements about what makes it safe:
+   (a) a real evaluation (depth 0) neither reads nor writes it: the two loops are the same function;
+   (b) whenever the memoised evaluation yields a value, the evaluation without the memo yields the same value in the
+       same state (the memo was never hit on the way);
+   (c) inside one speculation (memo emptied at its start, settled table sound) a NotReadyError of the memoised
+       evaluation -- by a memo hit or otherwise -- means that the object has no value at all: no evaluation of it, with
+       or without the memo, speculative or real, from any sound state, returns one.  The memo only postpones.
+   NOT proved: a cost statement.  The model has speculation only around a whole wait(); the nested `with try_compute`
+   blocks inside LinearPolynomial._wait / symbolic_product, which are what made the product chain 2**n before the fix and
+   linear after it, are not modelled; that part is covered by the exploration (DAG-shaped definition chains under the
+   watchdog) and by the reverse patch revert-C08-exponential-product. *)
+Theorem C08_memo_real_unaffected :
+  forall (bound bound2 : nat) (isp : nat -> bool) (G : graph) (fuel : nat) (st : state) (seen : list nat) (p i : nat),
+    wait_top true bound bound2 isp false G fuel st seen p i = wait_top false bound bound2 isp false G fuel st seen p i.
+Proof. exact memo_real_unaffected. Qed.
+Print Assumptions C08_memo_real_unaffected.
+
+Theorem C08_memo_only_postpones :
+  forall (bound bound2 : nat) (isp : nat -> bool) (spec : bool) (G : graph) (fuel : nat) (st : state) (seen : list nat) (p i : nat) (z : Z) (st' : state),
+    wait_top true bound bound2 isp spec G fuel st seen p i = RVal z st' ->
+    wait_top false bound bound2 isp spec G fuel st seen p i = RVal z st'.
+Proof. exact memo_only_postpones_lemma. Qed.
+Print Assumptions C08_memo_only_postpones.
+
+Theorem C08_memo_never_hides_a_value :
+  forall (G : graph) (bound bound2 : nat) (isp : nat -> bool) (fuel : nat) (st : state) (i : nat) (st' : state),
+    settled_sound G st ->
+    wait true bound bound2 isp true G fuel (clear_memo st) i = RRaise ENotReady st' ->
+    (forall z, ~ value_of G i z) /\
+    (forall um' b1 b2 isp' spec' fuel' s seen p z s', settled_sound G s ->
+       wait_top um' b1 b2 isp' spec' G fuel' s seen p i <> RVal z s').
+Proof. exact memo_never_hides_a_value. Qed.
+Print Assumptions C08_memo_never_hides_a_value.
+
+(* non-vacuity: 'b = a + 1' with a an unsettled promise: the speculation remembers both objects and says NotReadyError *)
+Example C08_memo_example :
+  let G := [NFn [1] (fun vs => NVal (1 + fold_left Z.add vs 0)%Z); NUnsettled] in
+  match wait true wait_seen_bound wait_poly_bound (fun _ => false) true G (fuel_bound wait_seen_bound G) (init_state G) 0 with
+  | RRaise ENotReady st' => memo st' = [true; true]
+  | _ => False
+  end.
+Proof. vm_compute. reflexivity. Qed.
 
 (* the hypotheses are satisfiable by non-trivial instances: 'a = b + 1 / b = 5 / c = a' evaluates to 6 through a
    yielded object; 'a = a' and 'a = b+1 / b = a+1' end in DeferredCycle with the model's own fuel bound *)
 Example C08_example_value :
   let G := [NFn [1] (fun vs => NVal (1 + fold_left Z.add vs 0)%Z); NConst (NVal 5%Z); NFn [] (fun _ => NFwd 0)] in
-  match wait wait_seen_bound wait_poly_bound (fun _ => false) false G (fuel_bound wait_seen_bound G) (init_state G) 2 with RVal 6%Z _ => True | _ => False end.
+  match wait true wait_seen_bound wait_poly_bound (fun _ => false) false G (fuel_bound wait_seen_bound G) (init_state G) 2 with RVal 6%Z _ => True | _ => False end.
 Proof. vm_compute. exact I. Qed.
 Example C08_example_self_cycle :
   let G := [NFn [] (fun _ => NFwd 0)] in
-  match wait wait_seen_bound wait_poly_bound (fun _ => false) false G (fuel_bound wait_seen_bound G) (init_state G) 0 with RRaise ECycle _ => True | _ => False end.
+  match wait true wait_seen_bound wait_poly_bound (fun _ => false) false G (fuel_bound wait_seen_bound G) (init_state G) 0 with RRaise ECycle _ => True | _ => False end.
 Proof. vm_compute. exact I. Qed.
 Example C08_example_mutual_cycle :
   let G := [NFn [1] (fun vs => NVal (1 + fold_left Z.add vs 0)%Z); NFn [0] (fun vs => NVal (1 + fold_left Z.add vs 0)%Z)] in
-  match wait wait_seen_bound wait_poly_bound (fun _ => false) false G (fuel_bound wait_seen_bound G) (init_state G) 0 with RRaise ECycle _ => True | _ => False end.
+  match wait true wait_seen_bound wait_poly_bound (fun _ => false) false G (fuel_bound wait_seen_bound G) (init_state G) 0 with RRaise ECycle _ => True | _ => False end.
 Proof. vm_compute. exact I. Qed.
 
 (* ---- (2) Python partial operations under the guards the code has now -------------------------------------- *)
